@@ -145,6 +145,22 @@ func (f *folder) table(g *ssa.Global) (fval, bool) {
 	mk := func(e ast.Expr, typ types.Type) (fval, bool) {
 		cv := c.constVal(e)
 		if cv == nil {
+			// a function of the library: a named function, a method
+			// expression (*T).m (called with the receiver first)
+			if _, isSig := typ.Underlying().(*types.Signature); isSig {
+				var obj types.Object
+				switch x := ast.Unparen(e).(type) {
+				case *ast.Ident:
+					obj = c.Lib.TypesInfo.Uses[x]
+				case *ast.SelectorExpr:
+					obj = c.Lib.TypesInfo.Uses[x.Sel]
+				}
+				if fo, ok := obj.(*types.Func); ok {
+					if fn := c.Prog.FuncValue(fo); fn != nil && fn.Blocks != nil {
+						return fval{kind: 'f', fn: fn}, true
+					}
+				}
+			}
 			return fval{}, false
 		}
 		switch cv.Kind() {
@@ -274,6 +290,9 @@ func (f *folder) table(g *ssa.Global) (fval, bool) {
 			}
 			if _, isStruct := t.Elem().Underlying().(*types.Struct); isStruct {
 				return zeroFval(t.Elem(), 0), true
+			}
+			if _, isSig := t.Elem().Underlying().(*types.Signature); isSig {
+				return fval{kind: 'f'}, true // the nil function
 			}
 			return fval{kind: 'b'}, true
 		}()
